@@ -36,6 +36,7 @@ func qosProfile() *hist.Profile {
 	p.MultiFilter = false
 	p.NoSelfTakeover = false
 	p.HowDisc = []string{"drop", "drop", "normal"}
+	p.TakeoverSafe = true
 	return p
 }
 
@@ -62,6 +63,7 @@ func checkC09(c *vk.Ctx) {
 	p.RecvMax = []uint16{0, 0, 0, 1, 2, 3}
 	p.W = map[string]int{"connect": 6, "subscribe": 4, "publish": 10, "disconnect": 4, "hold": 4, "ping": 1}
 	p.W["ackone"] = 5
+	p.W["failwrite"] = 3
 	h := &histRun{Prop: "C09", Profile: p, N: c.N(400, 10000), Label: 9, Nontrivial: []string{"sessions_resumed"}}
 	h.run(c)
 	// probe for the recorded finding: a message released from the flow-control queue is not redelivered
